@@ -7,39 +7,42 @@ Import ListNotations.
 
 Notation up_to_date_c := (up_to_date project config sched fname tree tree files).
 
-(* Faithful model. A non-forced run (discovery order w2, a fresh process) after a run (order w1) that
-   reported success or up to date answers up to date and leaves the whole state - every output file and
-   the record - untouched, for every state and every pair of orders outside the recorded class
-   kf_C14_order (the two orders give different fingerprints). *)
+(* Model of the patched code (commands sorted by (file, name) before hashing, type mappings through a BTreeMap,
+   files analysed in sorted path order). The fingerprint is the same under every valid discovery order - file
+   map order and mapping order - for projects whose commands have unique (file, name) and whose discovered
+   structs have unique names (what Rust and the HashMap of structs guarantee). *)
+Theorem C14_fp_order_independent : forall (p : project) (c : config) (wa wb : sched),
+  valid_sched wa p c = true -> valid_sched wb p c = true ->
+  NoDup (map cmd_key (a_cmds (analyse wa p))) -> NoDup (map s_name (a_structs (analyse wa p))) ->
+  fp wa p c = fp wb p c.
+Proof. exact fp_order_independent. Qed.
+
+(* A non-forced run (discovery order w2, a fresh process) after a run (order w1) that reported success or
+   up to date answers up to date and leaves the whole state - every output file and the record -
+   untouched: for every state and every pair of valid orders; no order class is left. *)
 Theorem C14_idempotent : forall (w1 w2 : sched) (st : cstate) r st1,
   run_c false w1 false None st = (r, st1) -> r = Success \/ r = UpToDate ->
   g_force (s_cfg st) = false ->
-  kf_C14_order w1 w2 (s_src st) (s_cfg st) = false ->
+  valid_sched w1 (s_src st) (s_cfg st) = true -> valid_sched w2 (s_src st) (s_cfg st) = true ->
+  NoDup (map cmd_key (a_cmds (analyse w1 (s_src st)))) -> NoDup (map s_name (a_structs (analyse w1 (s_src st)))) ->
   run_c false w2 false None st1 = (UpToDate, st1).
-Proof. intros w1 w2 st r st1 Hrun Hr Hf Hk.
+Proof. intros w1 w2 st r st1 Hrun Hr Hf V1 V2 Hk Hs.
   apply (idempotent_sched project config sched fname tree tree fname_eqb tree_eqb files fp has_commands g_force false
            tree_eqb_spec eq_refl w1 w2 st r st1 Hrun Hr Hf).
-  unfold kf_C14_order in Hk. apply negb_false_iff in Hk. apply tree_eqb_spec in Hk. symmetry. exact Hk. Qed.
+  symmetry. apply fp_order_independent; assumption. Qed.
 
-(* the class is inhabited on the faithful model: two source files visited in two orders, and two type
-   mappings serialised in two orders, make the second run regenerate *)
-Theorem C14_refuted_file_order :
-  valid_sched w01 p2 c0 = true /\ valid_sched w10 p2 c0 = true /\ kf_C14_order w01 w10 p2 c0 = true /\
+(* the former witnesses of C14-1 (two files, two orders) and C14-2 (two mappings, two map orders):
+   the second run is a no-op now *)
+Theorem C14_repaired_file_order :
+  valid_sched w01 p2 c0 = true /\ valid_sched w10 p2 c0 = true /\
   let st1 := snd (run_c false w01 false None (init_state p2 c0)) in
-  fst (run_c false w10 false None st1) = Success.
-Proof. exact c14_refuted_files. Qed.
-Theorem C14_refuted_mapping_order :
-  valid_sched wm01 p0 cmaps = true /\ valid_sched wm10 p0 cmaps = true /\ kf_C14_order wm01 wm10 p0 cmaps = true /\
+  run_c false w10 false None st1 = (UpToDate, st1) /\ fst (run_c false w01 false None (init_state p2 c0)) = Success.
+Proof. exact c14_fixed_files. Qed.
+Theorem C14_repaired_mapping_order :
+  valid_sched wm01 p0 cmaps = true /\ valid_sched wm10 p0 cmaps = true /\
   let st1 := snd (run_c false wm01 false None (init_state p0 cmaps)) in
-  fst (run_c false wm10 false None st1) = Success.
-Proof. exact c14_refuted_maps. Qed.
-
-(* projects with one source file and at most one type mapping are outside the class under every
-   pair of valid orders *)
-Theorem C14_single_file_outside_class : forall p c wa wb,
-  length p = 1 -> (match g_maps c with None => True | Some l => length l <= 1 end) ->
-  valid_sched wa p c = true -> valid_sched wb p c = true -> kf_C14_order wa wb p c = false.
-Proof. exact single_file_outside_class. Qed.
+  fst (run_c false wm10 false None st1) = UpToDate.
+Proof. exact c14_fixed_maps. Qed.
 
 (* forcing: with the flag or force:true every run on a project with commands succeeds, writes every file of
    the plan and the record, from every state (every cache state included), touching no other file *)
@@ -72,23 +75,15 @@ Theorem C14_refuted_path_spelling :
   fst (run_c false w1 false None (step_c false st1 (SetSrc _ _ _ _ [mk_file_at "src-tauri"]))) = Success.
 Proof. exact c14_refuted_path. Qed.
 
-(* the repair: hashing the commands sorted by (file, name) makes the command part of the fingerprint
-   independent of the discovery order (any two enumerations of the same commands, unique (file, name)) *)
-Theorem C14_repair_sorted_commands_order_independent : forall a a' : analysis,
-  NoDup (map cmd_key (a_cmds a)) -> Permutation (a_cmds a) (a_cmds a') -> fp_cmds_sorted a = fp_cmds_sorted a'.
-Proof. exact fp_cmds_sorted_order_independent. Qed.
-
 Example C14_ex_premises :
-  kf_C14_order w01 w01 p2 c0 = false /\ fst (run_c false w01 false None (init_state p2 c0)) = Success /\
-  has_commands p2 = true.
-Proof. exact c14_ex_same_order. Qed.
+  NoDup (map cmd_key (a_cmds (analyse w01 p2))) /\ NoDup (map s_name (a_structs (analyse w01 p2))) /\ has_commands p2 = true.
+Proof. exact c14_ex_keys. Qed.
 
 Print Assumptions C14_idempotent.
-Print Assumptions C14_refuted_file_order.
-Print Assumptions C14_refuted_mapping_order.
-Print Assumptions C14_single_file_outside_class.
+Print Assumptions C14_fp_order_independent.
+Print Assumptions C14_repaired_file_order.
+Print Assumptions C14_repaired_mapping_order.
 Print Assumptions C14_force.
 Print Assumptions C14_flag_prevails.
-Print Assumptions C14_repair_sorted_commands_order_independent.
 Print Assumptions C14_matching_record_noop.
 Print Assumptions C14_refuted_path_spelling.
